@@ -136,7 +136,7 @@ CHECKS = {
     "C16": dict(
         category="exploration",
         technique="bounded-exhaustive enumeration of argument lists through the real invocation codec (in-process, real worker.Compile, child process), of unencodable arguments on a cluster with RPC counting, and of all location-list pairs for the diff",
-        text=("(a) 5,262 argument lists over 15 registered Funcs covering int, string, float64, []int, map, struct, pointer, interface{}, user interface, bigslice.Slice and *exec.Result parameters (zero values, typed/untyped nil, interfaces holding "
+        text=("(a) argument lists over 21 registered Funcs covering int, string, float64, []int, map, struct, pointer, interface{}, user interface (also interfaces that *exec.Result implements without being bigslice.Slice), bigslice.Slice and *exec.Result parameters, repeated parameter types (zero values, typed/untyped nil, interfaces holding "
               "each registered concrete type, nested Results) go through the real execInvocation encode/decode, an in-process (*worker).Compile and a separately started process: decoded arguments must equal the originals (Results map to the worker-local "
               "Result) and the compiled graph must equal the driver's; lists the codec rejects must be rejected as errors. (b) Unencodable arguments (func, chan, unregistered concrete type in an interface, typed nil pointer, ...) on 1- and 2-machine "
               "vsys clusters, one driver process per run: Run must return an error promptly with ZERO Worker.Run RPCs and no retry loop, and the driver must survive. (c) bigslice.FuncLocationsDiff on ALL ordered pairs of location lists of length <=4 "
